@@ -46,6 +46,7 @@ var lifeSQL = map[string]string{
 	"boom_count":    "SELECT count(*) AS c, sum(vboom(v)) AS s FROM stream GROUP BY CountingWindow(2)",
 	"boom_global":   "SELECT g, count(*) AS c, sum(vboom(v)) AS s FROM stream GROUP BY g, GLOBAL WINDOW TRIGGER WHEN count(*) >= 2",
 	"boom_analytic": "SELECT id, lag(vboom(v)) AS p FROM stream",
+	"boom_cep":      "SELECT * FROM stream MATCH_RECOGNIZE (ORDER BY ts MEASURES COUNT(*) AS n, LAST(id) AS li PATTERN (A A) DEFINE A AS vboom(v) > -5)",
 	"late":          "SELECT g, count(*) AS c FROM stream GROUP BY g, TumblingWindow('1s') WITH (TIMESTAMP='ts', TIMEUNIT='ms', MAXOUTOFORDERNESS='200ms', ALLOWEDLATENESS='2s', IDLETIMEOUT='50ms')",
 }
 
@@ -107,6 +108,10 @@ func RunLife(sc LifeScenario) (evs []Ev, inconclusive string) {
 	pc.OverflowConfig.BlockTimeout = 0
 	pc.WorkerConfig.SinkPoolSize = 2
 	pc.WorkerConfig.SinkWorkerCount = 2
+	if sc.Directed == "slowdrain" { // a deep queue of tasks for one slow asynchronous sink worker
+		pc.WorkerConfig.SinkPoolSize = 2048
+		pc.WorkerConfig.SinkWorkerCount = 1
+	}
 	s := newInstance(streamsql.WithCustomPerformance(pc), streamsql.WithDiscardLog())
 	sql := lifeSQL[sc.Kind]
 	if err := s.Execute(sql); err != nil {
@@ -145,6 +150,8 @@ func RunLife(sc LifeScenario) (evs []Ev, inconclusive string) {
 			switch behaviour {
 			case "slow":
 				time.Sleep(2 * time.Millisecond)
+			case "slow5":
+				time.Sleep(5 * time.Millisecond)
 			case "panic":
 				if n%3 == 0 {
 					panic("sink panic (injected)")
@@ -170,6 +177,8 @@ func RunLife(sc LifeScenario) (evs []Ev, inconclusive string) {
 	if sc.Directed == "syncstop" {
 		s.AddSyncSink(mkSink("s1", "park"))
 		s.AddSyncSink(mkSink("s2", "fast"))
+	} else if sc.Directed == "slowdrain" {
+		s.AddSink(mkSink("a1", "slow5"))
 	} else if sc.Directed == "rowpanic" {
 		s.AddSyncSink(mkSink("s1", "fast"))
 		s.AddSink(mkSink("a1", "fast"))
@@ -255,6 +264,15 @@ func RunLife(sc LifeScenario) (evs []Ev, inconclusive string) {
 			log(Ev{"e": "deadlock", "q": atomic.AddInt64(&seq, 1)})
 		}
 		time.Sleep(30 * time.Millisecond)
+	case "slowdrain":
+		// far more results queued for the asynchronous sink than it can work off within the grace period: Stop does not wait
+		// for the backlog, and nothing of the backlog is delivered after Stop returned
+		for i := 1; i <= 1500; i++ {
+			guard("Emit", func() { s.Emit(row(i)) })
+		}
+		time.Sleep(100 * time.Millisecond)
+		stop(1)
+		time.Sleep(400 * time.Millisecond)
 	case "rowpanic":
 		// a user function panics on some rows (v = 3: every fifth row): the rows after them are still processed
 		for i := 1; i <= 20; i++ {
@@ -262,7 +280,7 @@ func RunLife(sc LifeScenario) (evs []Ev, inconclusive string) {
 			time.Sleep(2 * time.Millisecond)
 		}
 		time.Sleep(150 * time.Millisecond)
-		want := map[string]int64{"boom_direct": 14, "boom_where": 14, "boom_count": 6, "boom_global": 4, "boom_analytic": 14}[sc.Kind]
+		want := map[string]int64{"boom_direct": 14, "boom_where": 14, "boom_count": 6, "boom_global": 4, "boom_analytic": 14, "boom_cep": 3}[sc.Kind]
 		log(Ev{"e": "rowpanic", "q": atomic.AddInt64(&seq, 1), "got": atomic.LoadInt64(&sinkCalls) / 2, "want": want}) // two sinks (s1, a1) see every result
 		stop(1)
 	case "afterstop":
